@@ -189,7 +189,10 @@ func execG(t *testing.T, ch *vs.Choices, p *gProg, dir string, keepLog bool, par
 				var calls []*task.Call
 				for i, r := range p.Roots {
 					v := ast.NewVars()
-					v.Set("P", ast.Var{Value: "r" + strconv.Itoa(i)})
+					if effRun(p, p.Tasks[r.Target]) == "always" {
+						// a deduplicated task is identified by its variables: it gets no instance path
+						v.Set("P", ast.Var{Value: "r" + strconv.Itoa(i)})
+					}
 					if r.HasV {
 						v.Set("V", ast.Var{Value: r.V})
 					}
@@ -218,7 +221,14 @@ func execG(t *testing.T, ch *vs.Choices, p *gProg, dir string, keepLog bool, par
 		if ev.Stream != "out" {
 			continue
 		}
-		if pe, ok := parseProbe(ev.Seq, ev.G, ev.Line); ok {
+		line := ev.Line
+		if strings.HasPrefix(line, "PROMPT-") {
+			// a prompt has no trailing newline: the next probe line of that goroutine is glued to it
+			if i := strings.Index(line, "]: "); i >= 0 {
+				line = line[i+3:]
+			}
+		}
+		if pe, ok := parseProbe(ev.Seq, ev.G, line); ok {
 			x.evs = append(x.evs, pe)
 		}
 	}
